@@ -9,6 +9,28 @@ from .schemes import call
 X = "xenium::"
 
 
+def _from_new(fn, nid):
+    """does the expression derive from a `new` expression of this function?"""
+    for x in fn.subtree(nid):
+        xn = fn.nodes[x]
+        if xn["k"] == "new":
+            return True
+        if xn["k"] == "ref" and xn.get("dk") == "local":
+            for d in flow.all_defs(fn, xn["name"]):
+                if any(fn.nodes[y]["k"] == "new" for y in fn.subtree(d)):
+                    return True
+    return False
+
+
+def _is_param_call(fn, nid, idx):
+    """call of the functor passed as parameter #idx"""
+    n = fn.nodes[nid]
+    if n["k"] != "call" or not fn.kids(nid):
+        return False
+    o = fn.nodes[fn.kids(nid)[0]]
+    return o["k"] == "ref" and o.get("dk") == "param" and idx < len(fn.params) and o.get("name") == fn.params[idx]["name"]
+
+
 def is_dtor_call(fn, nid):
     n = fn.nodes[nid]
     if n["k"] != "call":
@@ -48,12 +70,12 @@ def michael_scott(ctx):
             continue
         for t in tails:
             desired = fn.expr(fn.kids(t)[2])
-            if re.search(r"\bn\b", desired):
+            if _from_new(fn, fn.kids(t)[2]):
                 ok, path, n = flow.only_via(fn, t, lambda f, nid: flow.node_matches(f, nid, LINK), True)
                 ctx.check(ok and n > 0, rid, Q + "push#swing-own|linked", "_tail is swung to the new node only after the link CAS succeeded",
                           "_tail can be advanced to the new node although it was not linked: later pushes append behind an unreachable node (elements lost)", fn.where(t), fn=fn)
             else:
-                ok, path, n = flow.only_via(fn, t, lambda f, nid: f.nodes[nid]["k"] == "bin" and f.nodes[nid]["op"] == "!=" and "next" in f.expr(nid), True)
+                ok, path, n = flow.only_via(fn, t, lambda f, nid: f.nodes[nid]["k"] == "bin" and f.nodes[nid]["op"] == "!=" and flow.has_src(f, nid, "load:_next"), True)
                 ctx.check(ok and n > 0, rid, Q + "push#help|next!=null", "helping swing only when a successor exists",
                           "_tail is helped forward without checking that a successor is linked", fn.where(t), fn=fn)
         # the link CAS expects null
@@ -74,7 +96,7 @@ def michael_scott(ctx):
         if not heads:
             ctx.bad(rid, Q + "pop_node#head-cas", "no CAS on _head", fn.where(), fn=fn)
             continue
-        lic = lambda f, nid: flow.node_matches(f, nid, HEAD) or (f.nodes[nid]["k"] == "bin" and f.nodes[nid]["op"] == "==" and "next.get()" in f.expr(nid) and "nullptr" in f.expr(nid))
+        lic = lambda f, nid: flow.node_matches(f, nid, HEAD) or (f.nodes[nid]["k"] == "bin" and f.nodes[nid]["op"] == "==" and flow.has_src(f, nid, "load:_next") and "nullptr" in f.expr(nid))
         for r in rets:
             ok, path, n = flow.only_via(fn, r, lic, True)
             ctx.check(ok and n > 0, rid, Q + "pop_node#return|won-head-or-empty", "a node is handed out only by the thread that won the _head CAS (or the queue is empty)",
@@ -85,7 +107,7 @@ def michael_scott(ctx):
             ok, path, n = flow.only_via(fn, r, reval, False)
             ctx.check(ok and n > 0, rid, Q + "pop_node#head-revalidated", "_head re-validated after reading h->_next",
                       "the successor read from h is used although h may no longer be the head (stale emptiness verdict / stale successor)", fn.where(r), fn=fn)
-        lag = lambda f, nid: f.nodes[nid]["k"] == "bin" and f.nodes[nid]["op"] == "==" and "h.get()" in f.expr(nid) and "t.get()" in f.expr(nid)
+        lag = lambda f, nid: flow.cmp_between(f, nid, ("==",), ["load:_head"], ["load:_tail"])
         for h in heads:
             ok, path, n = flow.only_via(fn, h, lag, False)
             ctx.check(ok and n > 0, rid, Q + "pop_node#head-never-passes-tail", "_head is advanced only when it differs from _tail (otherwise the tail is helped)",
@@ -98,7 +120,8 @@ def michael_scott(ctx):
         dl = flow.find(fn, {"k": "delete"})
         ok = bool(d) and bool(dl)
         if ok:
-            o1, p1, n1 = flow.only_via(fn, d[0], lambda f, nid: f.nodes[nid]["k"] in ("call", "bin") and "n" in f.expr(nid) and "h" in f.expr(nid) and ("!=" in f.expr(nid)), True)
+            o1, p1, n1 = flow.only_via(fn, d[0], lambda f, nid: flow.cmp_between(f, nid, ("!=",), ["load:_head"], ["load:_head"]) or (
+                f.nodes[nid]["k"] in ("call", "bin") and "!=" in f.expr(nid) and flow.has_src(f, nid, "load:_head")), True)
             ok = o1 and n1 > 0
         ctx.check(ok, "OWN.destructor", Q + "~michael_scott_queue#payload-but-dummy", "payload destroyed for every node except the dummy; nodes deleted",
                   "the queue destructor must destroy the payload of every node except the dummy head and delete all nodes", fn.where(), fn=fn)
@@ -108,7 +131,7 @@ def _pop_ownership(ctx, pat, Q):
     rid = "OWN.move-out-destroy"
     ctx.rule(rid, "a popped cell is moved out and then destroyed exactly once on the success path, and never touched on the empty path")
     for fn in flow._shapes(ctx, pat):
-        mv = [e for e in flow.find(fn, call("std::move")) if "data" in fn.expr(e)]
+        mv = [e for e in flow.find(fn, call("std::move")) if flow.has_src(fn, e, "field:_data") or "reinterpret_cast" in flow._deep_text(fn, e)]
         dt = flow.find(fn, DTOR)
         inst = pat + "#move<destroy"
         if not mv or not dt:
@@ -129,8 +152,9 @@ def ramalhete(ctx):
     for f in ("push", "pop"):
         for fn in flow._shapes(ctx, Q + f):
             acc = [e for e in flow.find(fn, ENTRY)]
-            full = lambda f_, nid: f_.nodes[nid]["k"] == "bin" and f_.nodes[nid]["op"] in (">=", "<", ">", "<=") and re.search(r"\bidx\b", f_.expr(nid)) and f_.expr(nid).count("max_idx") + (1 if any(
-                f_.nodes[k].get("v") is not None and f_.nodes[k]["k"] == "ref" and f_.nodes[k].get("name", "").endswith("max_idx") for k in f_.kids(nid)) else 0) > 0
+            full = lambda f_, nid: f_.nodes[nid]["k"] == "bin" and f_.nodes[nid]["op"] in (">=", "<", ">", "<=") and (
+                flow.has_src(f_, nid, "load:push_idx") or flow.has_src(f_, nid, "load:pop_idx")) and any(
+                f_.nodes[k]["k"] == "ref" and f_.nodes[k].get("name", "").endswith("max_idx") for k in f_.kids(nid))
             inst = Q + f + "#ticket-bounded"
             if not acc:
                 ctx.bad(rid, inst, "no entries[] access found", fn.where(), fn=fn)
@@ -141,7 +165,7 @@ def ramalhete(ctx):
                 okall = okall and ok and n > 0
             ctx.check(okall, rid, inst, "every entries[] access is reached through the 'idx < max_idx' edge",
                       "entries[idx] is accessed on a path where the ticket was not tested against max_idx (slot of a full/drained node reused)", fn.where(acc[0]), fn=fn)
-            mods = [e for e in flow.find(fn, {"k": "bin"}) if fn.nodes[e]["op"] == "%=" and "idx" in fn.expr(e)]
+            mods = [e for e in flow.find(fn, {"k": "bin"}) if fn.nodes[e]["op"] in ("%=", "%") and (flow.has_src(fn, e, "load:push_idx") or flow.has_src(fn, e, "load:pop_idx"))]
             ok = bool(mods) and all(any(fn.before(m, a) for m in mods) for a in acc)
             ctx.check(ok, rid, Q + f + "#ticket-modulo", "ticket reduced modulo entries_per_node before indexing", "entries[] is indexed with an unreduced ticket", fn.where(acc[0]), fn=fn)
     for fn in flow._shapes(ctx, Q + "pop"):
@@ -151,11 +175,12 @@ def ramalhete(ctx):
             ctx.bad(rid, inst, "pop() never invalidates an empty slot by exchange in this configuration (%s): a slow pusher's CAS succeeds on an entry the pop index "
                                "has already passed and the element is lost" % fn.insts[0][-70:], fn.where(), fn=fn)
         else:
-            # the backoff at the end of the iteration (no value obtained) is only reached after the exchange
-            tail_backoff = [e for e in flow.find(fn, {"k": "call", "callee_re": r"backoff::operator\(\)$|no_backoff::operator\(\)$"}) if "retry" not in fn.expr(e)]
-            ok = all(any(fn.before(x, b) for x in xchg) for b in tail_backoff if not any(fn.before(b, x) for x in xchg)) if tail_backoff else True
-            # and the exchange is executed whenever the loaded value is null
-            ctx.check(ok, rid, inst, "slot invalidated by exchange before the pop gives up on it", "pop() can give up on a slot without invalidating it", fn.where(xchg[0]), fn=fn)
+            # after a slot was inspected, the next ticket is only taken after the slot was invalidated by the exchange (or a value was returned)
+            from .harris import _reaches_without
+            slot_loads = flow.find(fn, {"k": "call", "field": "entry::value", "op": "load"})
+            tickets = flow.find(fn, {"k": "call", "field": "node::pop_idx", "op": "fetch_add"})
+            ok = bool(slot_loads) and bool(tickets) and not any(_reaches_without(fn, l, t, set(xchg)) for l in slot_loads for t in tickets)
+            ctx.check(ok, rid, inst, "slot invalidated by exchange before the pop gives up on it", "pop() can give up on a slot (take the next ticket) without invalidating it", fn.where(xchg[0]), fn=fn)
         fa = flow.find(fn, {"k": "call", "field": "node::pop_idx", "op": "fetch_add"})
         emp = [b for b, blk in fn.blocks.items() if "cond" in blk and "pop_idx" in fn.expr(blk["cond"]) and "push_idx" in fn.expr(blk["cond"])]
         ok = bool(fa) and bool(emp)
@@ -165,7 +190,7 @@ def ramalhete(ctx):
                   "a pop ticket is taken without testing pop_idx >= push_idx first: tickets of an empty node are burnt and later pushes are skipped", fn.where(), fn=fn)
         # values are handed out only if non-null
         for r in [r for r in flow.find(fn, {"k": "return"}) if fn.kids(r) and "get(" in fn.expr(fn.kids(r)[0])]:
-            ok, path, n = flow.only_via(fn, r, lambda f_, nid: f_.nodes[nid]["k"] in ("call", "bin") and "value" in f_.expr(nid) and "nullptr" in f_.expr(nid) and "!=" in f_.expr(nid), True)
+            ok, path, n = flow.only_via(fn, r, lambda f_, nid: f_.nodes[nid]["k"] in ("call", "bin") and flow.has_src(f_, nid, "load:value") and "nullptr" in f_.expr(nid) and "!=" in f_.expr(nid), True)
             ctx.check(ok and n > 0, rid, Q + "pop#return|non-null", "a value is returned only if it is non-null", "pop can return a null slot content", fn.where(r), fn=fn)
     for fn in flow._shapes(ctx, Q + "push"):
         rel = flow.find(fn, call("release"))
@@ -187,7 +212,7 @@ def ramalhete(ctx):
         LINK = cas_on("node::next", "link CAS")
         TAIL = cas_on("ramalhete_queue::_tail")
         for t in flow.find(fn, TAIL):
-            if "new_node" in fn.expr(fn.kids(t)[2]):
+            if _from_new(fn, fn.kids(t)[2]):
                 ok, path, n = flow.only_via(fn, t, lambda f_, nid: flow.node_matches(f_, nid, LINK), True)
                 ctx.check(ok and n > 0, rid, Q + "push#swing|linked", "_tail swung to the new node only after it was linked", "_tail swung to an unlinked node", fn.where(t), fn=fn)
     # C07.a destructor range
@@ -242,9 +267,13 @@ def nikolaev(ctx):
             elif a["kind"] == "cas":
                 bad = None
                 try:
+                    expv = fn.nodes[kids[1]].get("name")
+                    others = {fn.nodes[x]["name"] for x in fn.subtree(kids[2]) if fn.nodes[x]["k"] == "ref" and fn.nodes[x].get("dk") in ("local", "param")} - {expv}
                     for tail in (5, 7, 13):
                         for head in (4, 8, 20):
-                            got = evalx(fn, kids[2], {"tail": tail, "head": head})
+                            env_ = {expv: tail}
+                            env_.update({o: head for o in others})
+                            got = evalx(fn, kids[2], env_)
                             if got & 1 != 1:
                                 bad = (tail, head, got)
                 except Unknown as ex:
@@ -264,7 +293,7 @@ def nikolaev(ctx):
         if fin:
             ok = bool(rets0)
             for r in rets0:
-                o, p, n = flow.only_via(fn, r, lambda f_, nid: f_.nodes[nid]["k"] == "bin" and "finalized" in f_.expr(nid) and "tail" in f_.expr(nid), True)
+                o, p, n = flow.only_via(fn, r, lambda f_, nid: f_.nodes[nid]["k"] == "bin" and "finalized" in f_.expr(nid) and flow.has_src(f_, nid, "load:_tail"), True)
                 ok = ok and o and n > 0
             ctx.check(ok, rid, SCQ + "enqueue<Finalizable>#fails-when-finalized", "finalizable enqueue returns false iff the ticket carries the finalized bit",
                       "a finalizable enqueue does not fail on a finalized queue", fn.where(), fn=fn)
@@ -282,11 +311,14 @@ def nikolaev(ctx):
             a = f_.atomic(nid)
             if a and a["kind"] == "cas" and a["field"].endswith("_data[]"):
                 return True
-            x = f_.expr(nid)
             nn = f_.nodes[nid]
-            if nn["k"] == "bin" and nn["op"] == "==" and "entry_new" in x and "entry" in x:
-                return True
-            if nn["k"] == "bin" and nn["op"] == "<" and "entry_cycle" in x and "head_cycle" in x:
+            c_ = f_.kids(nid)
+            if nn["k"] == "bin" and nn["op"] == "==" and len(c_) == 2:
+                # entry == entry_new: the slot value compared with its own "unsafe" rewrite (derived from the same slot load, masked with ~n)
+                l_, r_ = flow._deep_text(f_, c_[0]), flow._deep_text(f_, c_[1])
+                if flow.has_src(f_, nid, "load:_data") and ("~" in l_ or "~" in r_):
+                    return True
+            if nn["k"] == "bin" and nn["op"] == "<" and flow.has_src(f_, nid, "load:_data", "load:_head") and "diff" in f_.expr(nid):
                 return False
             return None
         targets = [F[0]] + [r for r in flow.find(fn, {"k": "return"}) if fn.kids(r) and fn.nodes[fn.kids(r)[0]].get("v") == 0 and fn.event_reaches(F[0], r)]
@@ -335,7 +367,7 @@ def nikolaev(ctx):
         for fn in flow._shapes(ctx, C + "do_pop"):
             dt = flow.find(fn, DTOR)
             freeq = [e for e in flow.find(fn, call("nikolaev_scq::enqueue")) if "_free_queue" in fn.expr(e)]
-            sf = [e for e in flow.find(fn, {"k": "call"}) if re.match(r"^successFunc\(", fn.expr(e))]
+            sf = [e for e in flow.find(fn, {"k": "call"}) if _is_param_call(fn, e, 0)]
             ok = bool(dt) and bool(freeq) and bool(sf) and all(any(fn.before(s, d) for s in sf) for d in dt) and all(any(fn.before(d, f_) for d in dt) for f_ in freeq)
             ctx.check(ok, "OWN.move-out-destroy", C + "do_pop#consume<destroy<free", "element consumed, destroyed, then its index freed",
                       "a popped element must be moved out, destroyed and only then its index returned to the free queue (otherwise a producer constructs over a live element)",
@@ -386,7 +418,7 @@ def vyukov_bounded(ctx):
             if f == "do_try_push":
                 pl = flow.find(fn, call("assign_value")) + flow.find(fn, PLACEMENT_NEW)
             else:
-                pl = [e for e in flow.find(fn, {"k": "call"}) if re.match(r"^successFunc\(", fn.expr(e))] + flow.find(fn, DTOR)
+                pl = [e for e in flow.find(fn, {"k": "call"}) if _is_param_call(fn, e, 0)] + flow.find(fn, DTOR)
             inst = Q + f
             weak = any(re.search(r"%s<true" % f, i) for i in fn.insts)
             wtag = "[weak]" if weak else "[strong]"
@@ -403,13 +435,13 @@ def vyukov_bounded(ctx):
                       "the cell's sequence is published before the payload was %s" % ("constructed" if f == "do_try_push" else "moved out and destroyed"), fn.where(seqst[0]), fn=fn)
             if f == "do_try_pop":
                 dts = flow.find(fn, DTOR)
-                sfs = [e for e in flow.find(fn, {"k": "call"}) if re.match(r"^successFunc\(", fn.expr(e))]
+                sfs = [e for e in flow.find(fn, {"k": "call"}) if _is_param_call(fn, e, 0)]
                 ok = bool(dts) and bool(sfs) and all(any(fn.before(s_, d) for s_ in sfs) for d in dts) and len(dts) == 1
                 ctx.check(ok, "OWN.move-out-destroy", inst + "#move<destroy", "value moved out, then the cell destroyed exactly once", "the popped cell must be moved out and then destroyed once", fn.where(), fn=fn)
             ok = all(any(fn.before(l, c) for l in seqld) for c in cas)
             ctx.check(ok, rid, inst + "#sequence-load<cas", "the cell's sequence is read before trying to claim the position", "position claimed without reading the cell sequence", fn.where(cas[0]), fn=fn)
             # the position CAS is attempted only when the cell's sequence says it is this operation's turn
-            turn = lambda f_, nid: f_.nodes[nid]["k"] == "bin" and f_.nodes[nid]["op"] == "==" and re.search(r"\bseq\b", f_.expr(nid)) is not None
+            turn = lambda f_, nid: f_.nodes[nid]["k"] == "bin" and f_.nodes[nid]["op"] == "==" and flow.has_src(f_, nid, "load:sequence")
             for c in cas:
                 ok, path, n = flow.only_via(fn, c, turn, True)
                 ctx.check(ok and n > 0, rid, inst + "#cas|turn", "position CAS only when the cell's sequence equals the expected turn",
@@ -419,7 +451,14 @@ def vyukov_bounded(ctx):
                 ctx.check(ok and n > 0, rid, inst + "#true|won-position", "'return true' only after winning the position CAS", "success reported without winning the position", fn.where(r), fn=fn)
             # arithmetic of the protocol (finite evaluation): cell index, claimed position, published sequence
             try:
-                env = {"pos": 5, "index_mask": 3, "this.index_mask": 3}
+                posvars = {fn.nodes[x]["name"] for x in fn.subtree(fn.kids(cas[0])[2]) + fn.subtree(fn.kids(seqst[0])[1])
+                           if fn.nodes[x]["k"] == "ref" and fn.nodes[x].get("dk") == "local" and flow.has_src(fn, x, "load:" + posf)}
+                env = {"index_mask": 3, "this.index_mask": 3}
+                for pv in posvars:
+                    d = flow.unique_def(fn, pv)
+                    # a helper like new_pos = pos + 1 is evaluated through its definition; the position itself gets the sample value
+                    if d is None or fn.atomic(d) or fn.nodes[d]["k"] != "bin":
+                        env[pv] = 5
                 turn_nodes = [blk["cond"] for b, blk in fn.blocks.items() if "cond" in blk and turn(fn, blk["cond"]) and b in fn.live_blocks()]
                 st_arg = fn.kids(seqst[0])[1]
                 want_store = 6 if f == "do_try_push" else 5 + 3 + 1
@@ -434,7 +473,7 @@ def vyukov_bounded(ctx):
             # weak: bail out when the cell is behind; strong: answer full/empty only after re-reading both positions
             fails = [r for r in flow.find(fn, {"k": "return"}) if r not in _ret_true(fn) and not any(fn.before(c, r) for c in cas)]
             if weak:
-                behind = lambda f_, nid: f_.nodes[nid]["k"] == "bin" and f_.nodes[nid]["op"] == "<" and re.search(r"\bseq\b", f_.expr(nid)) is not None
+                behind = lambda f_, nid: f_.nodes[nid]["k"] == "bin" and f_.nodes[nid]["op"] == "<" and flow.has_src(f_, nid, "load:sequence")
                 for r in fails:
                     ok, path, n = flow.only_via(fn, r, behind, True)
                     ctx.check(ok and n > 0, rid, inst + "#weak-fail|cell-behind" + wtag, "weak operation fails only when the cell's sequence is behind",
@@ -442,8 +481,8 @@ def vyukov_bounded(ctx):
             else:
                 other = "dequeue_pos" if f == "do_try_push" else "enqueue_pos"
                 for r in fails:
-                    okp, pa, n = flow.only_via(fn, r, lambda f_, nid: f_.nodes[nid]["k"] == "bin" and f_.nodes[nid]["op"] == "==" and other in f_.expr(nid), True)
-                    okq, pa, n2 = flow.only_via(fn, r, lambda f_, nid: f_.nodes[nid]["k"] == "bin" and f_.nodes[nid]["op"] == "==" and "pos2" in f_.expr(nid), True)
+                    okp, pa, n = flow.only_via(fn, r, lambda f_, nid: f_.nodes[nid]["k"] == "bin" and f_.nodes[nid]["op"] == "==" and flow.has_src(f_, nid, "load:" + other), True)
+                    okq, pa, n2 = flow.only_via(fn, r, lambda f_, nid: flow.cmp_between(f_, nid, ("==",), ["load:" + posf], ["load:" + posf]), True)
                     ctx.check(okp and n > 0 and okq and n2 > 0, rid, inst + "#strong-fail|positions-reread" + wtag,
                               "strong operation reports full/empty only after re-reading its own and the opposite position",
                               "the strong operation reports %s without re-reading %s (it may fail although the queue is not %s)" % (
@@ -510,7 +549,7 @@ def kfifo(ctx):
         popf = "do_pop" if "bounded" in C else "try_pop"
         for fn in flow._shapes(ctx, C + popf):
             slot = cas_on("entry::value", "slot CAS")
-            got = [e for e in flow.find(fn, {"k": "call"}) if re.match(r"^successFunc\(", fn.expr(e))]
+            got = [e for e in flow.find(fn, {"k": "call"}) if _is_param_call(fn, e, 0)]
             for g in got[:2]:
                 ok, path, n = flow.only_via(fn, g, lambda f_, nid: flow.node_matches(f_, nid, slot), True)
                 ctx.check(ok and n > 0, rid2, C + popf + "#value|won-slot", "a value is taken only after winning the slot CAS", "pop hands out a value without winning the slot CAS", fn.where(g), fn=fn)
